@@ -15,6 +15,7 @@ Definition prodZ (l : list Z) : Z := fold_right Z.mul 1%Z l.
 Definition totalZ (lv : label_vars) (env : lname -> Z) (a : N) : Z :=
   sumZ (map (fun q => env (iso_name a q)) (all_patterns (nlab lv a))).
 
+(** the guarded statement about the dict form of the renaming block (the tree before fixes/C05-homodimer.diff) *)
 Theorem dynamics_collapse_rxn_Z :
   forall (lv : label_vars) (r : brxn) (lmap : list Z) (env : lname -> Z) (extra : list N) (c : N) (rxns : list lrxn),
     r_fn r = FProd ->
@@ -22,15 +23,38 @@ Theorem dynamics_collapse_rxn_Z :
     NoDup (map fst (r_stoich r)) ->
     NoDup (subs_of (r_stoich r)) ->
     (forall a, In a extra -> ~ In a (subs_of (r_stoich r)) /\ ~ In a (prods_of (r_stoich r)) /\ nlab lv a = 0) ->
-    create_iso_rxns true lv r lmap = Ok rxns ->
+    create_iso_rxns true ReplDict lv r lmap = Ok rxns ->
     total (labels_per lv (prods_of (r_stoich r))) <= length lmap ->
     sumZ (map (fun bits => derivZ env rxns (iso_name c bits)) (all_patterns (nlab lv c)))
     = ((match getN c (r_stoich r) with Some v => v | None => 0 end)
        * prodZ (map (totalZ lv env) (r_args r)))%Z.
 Proof.
   intros lv r lmap env extra c rxns H1 H2 H3 H4 H5 H6 H7.
-  exact (dynamics_collapse_rxn Z 0%Z 1%Z Z.add Z.mul Z.sub Z.opp idZ idZ Zth eq_refl eq_refl
-           (fun _ _ => eq_refl) (fun _ => eq_refl) true lv r lmap env extra H1 H2 H3 H4 H5 c rxns H6 H7).
+  refine (dynamics_collapse_rxn_gen Z 0%Z 1%Z Z.add Z.mul Z.sub Z.opp idZ idZ Zth eq_refl eq_refl
+           (fun _ _ => eq_refl) (fun _ => eq_refl) true ReplDict lv r lmap env extra H1 H2 H3 (or_intror H4) _ c rxns H6 H7).
+  intros a Ha. destruct (H5 a Ha) as [Ha1 [Ha2 Ha0]]. split; [exact Ha1|]. split; [exact Ha2|].
+  cbn [ext_name]. unfold benv. rewrite Ha0. cbn. lia.
+Qed.
+
+(** the FULL statement about the per-occurrence form (after fixes/C05-homodimer.diff): no guard on repeated
+    substrates; arguments that take no part in the reaction may be labelled -- they are read through their
+    [__total], which the state [env] evaluates to the sum of the isotopomers *)
+Theorem dynamics_collapse_rxn_pos_Z :
+  forall (lv : label_vars) (r : brxn) (lmap : list Z) (env : lname -> Z) (extra : list N) (c : N) (rxns : list lrxn),
+    r_fn r = FProd ->
+    Permutation (r_args r) (subs_of (r_stoich r) ++ extra) ->
+    NoDup (map fst (r_stoich r)) ->
+    (forall a, In a extra -> ~ In a (subs_of (r_stoich r)) /\ ~ In a (prods_of (r_stoich r))
+                             /\ env (bystander_name lv a) = totalZ lv env a) ->
+    create_iso_rxns true ReplPositional lv r lmap = Ok rxns ->
+    total (labels_per lv (prods_of (r_stoich r))) <= length lmap ->
+    sumZ (map (fun bits => derivZ env rxns (iso_name c bits)) (all_patterns (nlab lv c)))
+    = ((match getN c (r_stoich r) with Some v => v | None => 0 end)
+       * prodZ (map (totalZ lv env) (r_args r)))%Z.
+Proof.
+  intros lv r lmap env extra c rxns H1 H2 H3 H5 H6 H7.
+  exact (dynamics_collapse_rxn_gen Z 0%Z 1%Z Z.add Z.mul Z.sub Z.opp idZ idZ Zth eq_refl eq_refl
+           (fun _ _ => eq_refl) (fun _ => eq_refl) true ReplPositional lv r lmap env extra H1 H2 H3 (or_introl eq_refl) H5 c rxns H6 H7).
 Qed.
 
 (** keys of a repacked stoichiometry *)
@@ -68,9 +92,9 @@ Qed.
     of label positions) of a compound of the base reaction, and per compound the coefficients sum to
     the base coefficient *)
 Theorem collapse_stoichiometry :
-  forall (ext_bit : bool) (lv : label_vars) (r : brxn) (lmap : list Z) (rxns : list lrxn) (rx : lrxn),
+  forall (ext_bit : bool) (rk : repl_kind) (lv : label_vars) (r : brxn) (lmap : list Z) (rxns : list lrxn) (rx : lrxn),
     NoDup (map fst (r_stoich r)) ->
-    create_iso_rxns ext_bit lv r lmap = Ok rxns ->
+    create_iso_rxns ext_bit rk lv r lmap = Ok rxns ->
     total (labels_per lv (prods_of (r_stoich r))) <= length lmap ->
     In rx rxns ->
     (forall Y co, In (Y, co) (lr_stoich rx) ->
@@ -79,15 +103,15 @@ Theorem collapse_stoichiometry :
     /\ (forall c, sumZ (map (fun bits => coefZ rx (iso_name c bits)) (all_patterns (nlab lv c)))
                   = match getN c (r_stoich r) with Some v => v | None => 0%Z end).
 Proof.
-  intros ext_bit lv r lmap rxns rx Hnd Hc Hl Hin.
-  pose proof (create_ok_shape _ _ _ _ _ Hc) as [Hlen [Hrx Hs]]. subst rxns.
+  intros ext_bit rk lv r lmap rxns rx Hnd Hc Hl Hin.
+  pose proof (create_ok_shape _ _ _ _ _ _ Hc) as [Hlen [Hrx Hs]]. subst rxns.
   apply in_map_iff in Hin. destruct Hin as [p [<- Hp]].
   pose proof (subpairs_wf ext_bit lv r p Hp) as Hws.
   assert (Hwp : wf_pairs (nlab lv) (prodpairs ext_bit lv r lmap p)).
   { unfold prodpairs, labels_per. apply wf_pairs_split. specialize (Hs p Hp). apply mapM_length in Hs.
     unfold labels_per in Hl. rewrite Hs. lia. }
   split.
-  - intros Y co HY. rewrite (mk_iso_rxn_stoich ext_bit lv r lmap p) in HY.
+  - intros Y co HY. rewrite (mk_iso_rxn_stoich ext_bit rk lv r lmap p) in HY.
     apply in_map_iff in HY. destruct HY as [[k z] [Heq Hk]]. cbn in Heq. inversion Heq; subst Y co.
     apply repack_keys in Hk.
     assert (Hgen : forall pairs cs sufs, pairs = combine cs sufs -> wf_pairs (nlab lv) pairs ->
@@ -106,7 +130,7 @@ Proof.
               - 1 * idZ (Z.of_nat (count_occ lname_eq_dec
                  (map (fun cq => iso_name (fst cq) (snd cq)) (subpairs ext_bit lv r p)) (iso_name c bits))))%Z)).
     2:{ intro bits. rewrite (coef_at_CZ' Z 0%Z 1%Z Z.add Z.mul Z.opp idZ idZ eq_refl (fun _ _ => eq_refl) _ _ _ _
-                              (mk_iso_rxn_stoich ext_bit lv r lmap p)).
+                              (mk_iso_rxn_stoich ext_bit rk lv r lmap p)).
         rewrite tc_repack. unfold idZ. lia. }
     change sumZ with (sumR Z 0%Z Z.add).
     rewrite (sum_map_sub Z 0%Z 1%Z Z.add Z.mul Z.sub Z.opp Zth).
@@ -134,13 +158,13 @@ Theorem homodimer_refuted :
     Permutation (r_args r) (subs_of (r_stoich r) ++ extra) /\
     NoDup (map fst (r_stoich r)) /\
     (forall a, In a extra -> ~ In a (subs_of (r_stoich r)) /\ ~ In a (prods_of (r_stoich r)) /\ nlab lv a = 0) /\
-    create_iso_rxns true lv r lmap = Ok rxns /\
+    create_iso_rxns true ReplDict lv r lmap = Ok rxns /\
     total (labels_per lv (prods_of (r_stoich r))) <= length lmap /\
     sumZ (map (fun bits => derivZ env rxns (iso_name c bits)) (all_patterns (nlab lv c))) = (-40)%Z /\
     ((match getN c (r_stoich r) with Some v => v | None => 0 end) * prodZ (map (totalZ lv env) (r_args r)))%Z = (-32)%Z.
 Proof.
   exists hd_lv, hd_rxn, [0%Z; 1%Z], hd_env, [20%N], 1%N.
-  destruct (create_iso_rxns true hd_lv hd_rxn [0%Z; 1%Z]) as [rxns|e] eqn:Hc; [|vm_compute in Hc; discriminate].
+  destruct (create_iso_rxns true ReplDict hd_lv hd_rxn [0%Z; 1%Z]) as [rxns|e] eqn:Hc; [|vm_compute in Hc; discriminate].
   exists rxns. repeat split.
   - vm_compute. apply Permutation_refl.
   - vm_compute. repeat constructor; cbn; intuition discriminate.
@@ -149,6 +173,125 @@ Proof.
   - destruct H as [<-|[]]. reflexivity.
   - vm_compute. lia.
   - vm_compute in Hc. inversion Hc; subst rxns. vm_compute. reflexivity.
+Qed.
+
+(** the same input under the per-occurrence form (fixes/C05-homodimer.diff): the reactions read (A__0, A__1);
+    the summed derivative and the base derivative at the totals agree (-32), although A stands twice on the
+    substrate side -- a non-trivial instance of [dynamics_collapse_rxn_pos_Z] *)
+Theorem homodimer_repaired :
+  exists rxns : list lrxn,
+    r_fn hd_rxn = FProd /\
+    Permutation (r_args hd_rxn) (subs_of (r_stoich hd_rxn) ++ [20%N]) /\
+    NoDup (map fst (r_stoich hd_rxn)) /\
+    ~ NoDup (subs_of (r_stoich hd_rxn)) /\
+    (forall a, In a [20%N] -> ~ In a (subs_of (r_stoich hd_rxn)) /\ ~ In a (prods_of (r_stoich hd_rxn))
+                              /\ hd_env (bystander_name hd_lv a) = totalZ hd_lv hd_env a) /\
+    create_iso_rxns true ReplPositional hd_lv hd_rxn [0%Z; 1%Z] = Ok rxns /\
+    map lr_args rxns = [[LIso 1%N [false]; LIso 1%N [false]; LPlain 20%N]; [LIso 1%N [false]; LIso 1%N [true]; LPlain 20%N];
+                        [LIso 1%N [true]; LIso 1%N [false]; LPlain 20%N]; [LIso 1%N [true]; LIso 1%N [true]; LPlain 20%N]] /\
+    sumZ (map (fun bits => derivZ hd_env rxns (iso_name 1%N bits)) (all_patterns (nlab hd_lv 1%N))) = (-32)%Z /\
+    ((match getN 1%N (r_stoich hd_rxn) with Some v => v | None => 0 end) * prodZ (map (totalZ hd_lv hd_env) (r_args hd_rxn)))%Z = (-32)%Z.
+Proof.
+  destruct (create_iso_rxns true ReplPositional hd_lv hd_rxn [0%Z; 1%Z]) as [rxns|e] eqn:Hc; [|vm_compute in Hc; discriminate].
+  exists rxns. vm_compute in Hc. inversion Hc; subst rxns. clear Hc.
+  repeat match goal with |- _ /\ _ => split end.
+  - reflexivity.
+  - vm_compute. apply Permutation_refl.
+  - vm_compute. repeat constructor; cbn; intuition discriminate.
+  - vm_compute. intro H. inversion H as [|x l Hn _]. apply Hn. left. reflexivity.
+  - intros a [<-|[]]. vm_compute. repeat split; intuition discriminate.
+  - reflexivity.
+  - reflexivity.
+  - vm_compute. reflexivity.
+  - vm_compute. reflexivity.
+Qed.
+
+(** a labelled compound that enters the rate of a mapped reaction without taking part in it (a modifier):
+    A(1) -> B(1), rate k*A*M with M labelled.  Dict form: the generated reactions read the BASE name M, which the
+    generated model does not define (only M__0, M__1 and M__total exist) -- its right-hand side cannot be
+    evaluated.  Per-occurrence form: M__total is read and every argument of every reaction is defined. *)
+Definition md_lv : label_vars := [(1%N, 1); (2%N, 1); (3%N, 1)].
+Definition md_rxn : brxn := mkBR 40%N FProd [1%N; 3%N; 20%N] [(1%N, (-1)%Z); (2%N, 1%Z)].
+Definition md_base : bmodel := mkBM [(20%N, 1%Z)] [] [(1%N, 1%Z); (2%N, 1%Z); (3%N, 1%Z)] [] [md_rxn].
+Definition defined_names (m : lmodel Z) : list lname :=
+  map fst (lm_params m) ++ map fst (lm_vars m) ++ map ld_name (lm_derived m).
+Definition all_args_defined (m : lmodel Z) : bool :=
+  forallb (fun rx => forallb (fun a => existsb (lname_eqb a) (defined_names m)) (lr_args rx)) (lm_rxns m).
+
+Theorem labelled_modifier_refuted :
+  r_fn md_rxn = FProd /\
+  Permutation (r_args md_rxn) (subs_of (r_stoich md_rxn) ++ [3%N; 20%N]) /\
+  (forall a, In a [3%N; 20%N] -> ~ In a (subs_of (r_stoich md_rxn)) /\ ~ In a (prods_of (r_stoich md_rxn))) /\
+  exists m rx, build_iso true ReplDict InitIsoName md_lv [(40%N, [0%Z])] [] md_base = Ok m /\
+               In rx (lm_rxns m) /\ In (LPlain 3%N) (lr_args rx) /\ ~ In (LPlain 3%N) (defined_names m) /\
+               all_args_defined m = false.
+Proof.
+  split; [reflexivity|]. split; [vm_compute; apply Permutation_refl|]. split.
+  - intros a [<-|[<-|[]]]; vm_compute; intuition discriminate.
+  - destruct (build_iso true ReplDict InitIsoName md_lv [(40%N, [0%Z])] [] md_base) as [m|e] eqn:Hb; [|vm_compute in Hb; discriminate].
+    vm_compute in Hb. inversion Hb; subst m. clear Hb.
+    eexists. eexists. split; [reflexivity|]. split; [left; reflexivity|]. split; [right; left; reflexivity|]. split.
+    + vm_compute. intuition discriminate.
+    + vm_compute. reflexivity.
+Qed.
+
+Theorem labelled_modifier_repaired :
+  exists m, build_iso true ReplPositional InitIsoName md_lv [(40%N, [0%Z])] [] md_base = Ok m /\
+            map lr_args (lm_rxns m) = [[LIso 1%N [false]; LTotal 3%N; LPlain 20%N]; [LIso 1%N [true]; LTotal 3%N; LPlain 20%N]] /\
+            all_args_defined m = true.
+Proof.
+  destruct (build_iso true ReplPositional InitIsoName md_lv [(40%N, [0%Z])] [] md_base) as [m|e] eqn:Hb; [|vm_compute in Hb; discriminate].
+  vm_compute in Hb. inversion Hb; subst m. clear Hb. eexists. split; [reflexivity|]. split; vm_compute; reflexivity.
+Qed.
+
+(** ---- reversible mass action written as ONE reaction (the rate takes its own product: kf*S - kr*P, [FRev]) --------
+    One isotopomer reaction per SUBSTRATE pattern p is generated and the product argument is renamed to the product
+    isotopomer pi(p) that pattern produces.  The summed rate is kf * S_total - kr * sum_p P[pi(p)], which is the base
+    rate at the totals exactly when p |-> pi(p) is a bijection between substrate and product patterns.
+    (1) A(1) <-> B(2), one external position: pi hits B__01 and B__11 only -- refuted for either form of the renaming;
+    (2) A(2) <-> B(2) with the swap map: holds at EVERY state (all states, this reaction). *)
+Definition rv_lv : label_vars := [(1%N, 1); (2%N, 2)].
+Definition rv_rxn : brxn := mkBR 40%N (FRev 1) [1%N; 2%N; 20%N; 21%N] [(1%N, (-1)%Z); (2%N, 1%Z)].
+Definition rv_env (x : lname) : Z :=
+  match x with
+  | LIso 1%N [false] => 1%Z | LIso 1%N [true] => 1%Z | LIso 2%N [false; false] => 1%Z
+  | LPlain 20%N => 1%Z | LPlain 21%N => 1%Z | _ => 0%Z
+  end.
+Definition fsemZ := fsem Z 0%Z 1%Z Z.add Z.mul Z.opp idZ.
+
+Theorem reversible_unbalanced_refuted :
+  forall rk : repl_kind,
+  exists rxns : list lrxn,
+    create_iso_rxns true rk rv_lv rv_rxn [0%Z; 1%Z] = Ok rxns /\
+    map lr_args rxns = [[LIso 1%N [false]; LIso 2%N [false; true]; LPlain 20%N; LPlain 21%N];
+                        [LIso 1%N [true]; LIso 2%N [true; true]; LPlain 20%N; LPlain 21%N]] /\
+    sumZ (map (fun bits => derivZ rv_env rxns (iso_name 1%N bits)) (all_patterns (nlab rv_lv 1%N))) = (-2)%Z /\
+    ((match getN 1%N (r_stoich rv_rxn) with Some v => v | None => 0 end)
+     * fsemZ (r_fn rv_rxn) (map (totalZ rv_lv rv_env) (r_args rv_rxn)))%Z = (-1)%Z.
+Proof.
+  intro rk.
+  assert (H : forall rk', create_iso_rxns true rk' rv_lv rv_rxn [0%Z; 1%Z]
+                = create_iso_rxns true ReplDict rv_lv rv_rxn [0%Z; 1%Z]) by (intros [| |]; vm_compute; reflexivity).
+  rewrite H. eexists. split; [vm_compute; reflexivity|]. repeat split; vm_compute; reflexivity.
+Qed.
+
+(* balanced: A(2) <-> B(2), swap *)
+Definition rb_lv : label_vars := [(1%N, 2); (2%N, 2)].
+Definition rb_rxn : brxn := mkBR 40%N (FRev 1) [1%N; 2%N; 20%N; 21%N] [(1%N, (-1)%Z); (2%N, 1%Z)].
+Theorem reversible_swap_collapse :
+  forall (rk : repl_kind) (env : lname -> Z),
+  exists rxns : list lrxn,
+    create_iso_rxns true rk rb_lv rb_rxn [1%Z; 0%Z] = Ok rxns /\
+    forall c, c = 1%N \/ c = 2%N ->
+    sumZ (map (fun bits => derivZ env rxns (iso_name c bits)) (all_patterns (nlab rb_lv c)))
+    = ((match getN c (r_stoich rb_rxn) with Some v => v | None => 0 end)
+       * fsemZ (r_fn rb_rxn) (map (totalZ rb_lv env) (r_args rb_rxn)))%Z.
+Proof.
+  intros rk env.
+  assert (H : forall rk', create_iso_rxns true rk' rb_lv rb_rxn [1%Z; 0%Z]
+                = create_iso_rxns true ReplDict rb_lv rb_rxn [1%Z; 0%Z]) by (intros [| |]; vm_compute; reflexivity).
+  rewrite H. eexists. split; [vm_compute; reflexivity|].
+  intros c [->| ->]; cbv -[Z.add Z.mul Z.opp]; ring.
 Qed.
 
 (* label_variables = {A: 0}, initial_labels = {A: []}: with the PRE-REPAIR naming the amount goes to the stray name "A__" *)
@@ -174,7 +317,7 @@ Example dynamics_nonvacuous :
   Permutation (r_args nv_rxn) (subs_of (r_stoich nv_rxn) ++ [20%N]) /\
   NoDup (map fst (r_stoich nv_rxn)) /\ NoDup (subs_of (r_stoich nv_rxn)) /\
   (forall a, In a [20%N] -> ~ In a (subs_of (r_stoich nv_rxn)) /\ ~ In a (prods_of (r_stoich nv_rxn)) /\ nlab nv_lv a = 0) /\
-  (exists rxns, create_iso_rxns true nv_lv nv_rxn [1%Z; 0%Z] = Ok rxns /\ length rxns = 4) /\
+  (exists rxns, create_iso_rxns true ReplDict nv_lv nv_rxn [1%Z; 0%Z] = Ok rxns /\ length rxns = 4) /\
   total (labels_per nv_lv (prods_of (r_stoich nv_rxn))) <= length [1%Z; 0%Z].
 Proof.
   repeat split.
@@ -186,23 +329,23 @@ Proof.
   - destruct H as [<-|[]]. vm_compute. intuition discriminate.
   - destruct H as [<-|[]]. vm_compute. intuition discriminate.
   - destruct H as [<-|[]]. reflexivity.
-  - destruct (create_iso_rxns true nv_lv nv_rxn [1%Z; 0%Z]) as [rxns|e] eqn:Hc; [|vm_compute in Hc; discriminate].
+  - destruct (create_iso_rxns true ReplDict nv_lv nv_rxn [1%Z; 0%Z]) as [rxns|e] eqn:Hc; [|vm_compute in Hc; discriminate].
     exists rxns. split; [reflexivity|]. vm_compute in Hc. inversion Hc. reflexivity.
   - vm_compute. lia.
 Qed.
 
 (** a short map anywhere in label_maps makes build_model fail *)
-Lemma build_short_map_rejected ext_bit ik lv lmaps init bm r lmap :
+Lemma build_short_map_rejected ext_bit rk ik lv lmaps init bm r lmap :
   In r (b_rxns bm) -> getN (r_name r) lmaps = Some lmap ->
   length lmap < total (labels_per lv (subs_of (r_stoich r))) ->
-  exists e, build_iso ext_bit ik lv lmaps init bm = Err e.
+  exists e, build_iso ext_bit rk ik lv lmaps init bm = Err e.
 Proof.
   intros Hin Hm Hshort. unfold build_iso.
   destruct (collect_map_err
               (fun r0 => match getN (r_name r0) lmaps with
                          | None => Ok [mkLR (LPlain (r_name r0)) (r_fn r0) (map (total_name lv) (r_args r0))
                                             (map (fun kz => (LPlain (fst kz), CZ (snd kz))) (r_stoich r0))]
-                         | Some lmap0 => create_iso_rxns ext_bit lv r0 lmap0
+                         | Some lmap0 => create_iso_rxns ext_bit rk lv r0 lmap0
                          end) (b_rxns bm) r ErrValue Hin) as [e He].
   - rewrite Hm. apply short_map_rejected. exact Hshort.
   - exists e. rewrite He. reflexivity.
